@@ -2,7 +2,33 @@
 //! that an abort (allocation failure) is observed instead of killing the harness. The child is
 //! persistent: one request per line `<op> <hx>`, one answer per line `V <text>` | `P <panic message>`.
 use crate::util::*;
+use std::alloc::{GlobalAlloc, Layout, System};
 use std::io::{BufRead, BufReader, Write};
+use std::sync::atomic::{AtomicUsize, Ordering as AO};
+
+/// Global allocator that remembers the largest single request since the last reset: the child reports it with every
+/// answer, so that "asks for memory unrelated to the size of its input" is an observation, not only when it is large
+/// enough to hit the address-space limit.
+pub struct Counting;
+static MAX_REQ: AtomicUsize = AtomicUsize::new(0);
+unsafe impl GlobalAlloc for Counting {
+    unsafe fn alloc(&self, l: Layout) -> *mut u8 { MAX_REQ.fetch_max(l.size(), AO::Relaxed); System.alloc(l) }
+    unsafe fn dealloc(&self, p: *mut u8, l: Layout) { System.dealloc(p, l) }
+    unsafe fn alloc_zeroed(&self, l: Layout) -> *mut u8 { MAX_REQ.fetch_max(l.size(), AO::Relaxed); System.alloc_zeroed(l) }
+    unsafe fn realloc(&self, p: *mut u8, l: Layout, n: usize) -> *mut u8 { MAX_REQ.fetch_max(n, AO::Relaxed); System.realloc(p, l, n) }
+}
+/// the largest single allocation request the child made while serving the last guarded operation
+pub static LAST_MAX_ALLOC: AtomicUsize = AtomicUsize::new(0);
+
+/// C06: was the last guarded operation's largest allocation request out of proportion to its input? Selium's own
+/// decoders (`own`) produce values no larger than their input (serde caps speculative pre-allocation at 1 MiB); a
+/// decompressor's output is bounded by the harness's payloads and its working memory by the library's window sizes.
+pub fn alloc_excess(op: &str, input_len: usize, own: bool) -> Option<String> {
+    let biggest = LAST_MAX_ALLOC.load(AO::SeqCst);
+    crate::util::note_alloc(op, input_len, biggest);
+    let allowance = 64 * input_len + if own { 4 << 20 } else { 256 << 20 };
+    if biggest > allowance { Some(format!("C06: {op} asked for {biggest} bytes in one allocation for an input of {input_len} bytes")) } else { None }
+}
 use std::process::{Child, ChildStdin, Command, Stdio};
 use std::sync::Mutex;
 
@@ -83,6 +109,11 @@ pub fn guarded_timeout(op: &str, input: &[u8], limit: std::time::Duration) -> Ou
         }
     };
     let line = line.trim_end_matches('\n');
+    // the child appends ` @<largest allocation request>`
+    let line = match line.rsplit_once(" @") {
+        Some((l, n)) if n.chars().all(|c| c.is_ascii_digit()) && !n.is_empty() => { LAST_MAX_ALLOC.store(n.parse().unwrap_or(0), AO::SeqCst); l }
+        _ => { LAST_MAX_ALLOC.store(0, AO::SeqCst); line }
+    };
     if let Some(v) = line.strip_prefix("V ") {
         Outcome::Value(v.to_string())
     } else if let Some(p) = line.strip_prefix("P ") {
@@ -117,10 +148,12 @@ pub fn child_main() {
         let line = match line { Ok(l) => l, Err(_) => break };
         let (op, arg) = line.split_once(' ').unwrap_or((&line, "-"));
         let input = unhx(arg);
+        MAX_REQ.store(0, AO::SeqCst);
         let res = catch(|| crate::dispatch_child(op, &input));
+        let biggest = MAX_REQ.load(AO::SeqCst);
         let ans = match res {
-            Ok(v) => format!("V {v}"),
-            Err(p) => format!("P {}", p.replace('\n', " ")),
+            Ok(v) => format!("V {v} @{biggest}"),
+            Err(p) => format!("P {} @{biggest}", p.replace('\n', " ")),
         };
         if writeln!(out, "{ans}").is_err() || out.flush().is_err() {
             break;
